@@ -7,7 +7,15 @@ import collections
 import functools
 
 COUNTS = collections.Counter()
+ERRORS = []  # exceptions raised by the monitors themselves (pre/post/on_raise hooks): harness faults, never verdicts
 _ORIG = {}
+
+
+def _hook_failed(key, which, exc):
+    import traceback
+    COUNTS[("monitor-error",) + key] += 1
+    if len(ERRORS) < 20:
+        ERRORS.append("%s.%s %s hook: %r\n%s" % (key[0], key[1], which, exc, traceback.format_exc()[-1500:]))
 
 
 def wrap(module, name, pre=None, post=None, on_raise=None):
@@ -20,16 +28,38 @@ def wrap(module, name, pre=None, post=None, on_raise=None):
 
     @functools.wraps(orig)
     def wrapper(*args, **kwargs):
+        # A fault inside a hook must neither change what the wrapped function does for its caller nor pass for a
+        # behaviour of the code under observation: it is recorded, reported by the worker and makes the run
+        # inconclusive.  (Deliberate control-flow exceptions of the harness - budgets, recursion limits - pass.)
         COUNTS[key] += 1
-        state = pre(*args, **kwargs) if pre else None
+        state = None
+        if pre:
+            try:
+                state = pre(*args, **kwargs)
+            except (RecursionError, MemoryError):
+                raise
+            except Exception as e:
+                _hook_failed(key, "pre", e)
         try:
             result = orig(*args, **kwargs)
         except BaseException as e:
             if on_raise:
-                on_raise(state, e, *args, **kwargs)
+                try:
+                    on_raise(state, e, *args, **kwargs)
+                except (RecursionError, MemoryError):
+                    pass
+                except Exception as e2:
+                    _hook_failed(key, "on_raise", e2)
             raise
         if post:
-            post(state, result, *args, **kwargs)
+            try:
+                post(state, result, *args, **kwargs)
+            except (RecursionError, MemoryError):
+                raise
+            except Exception as e:
+                if type(e).__name__ in ("CpuBudgetExceeded",):
+                    raise
+                _hook_failed(key, "post", e)
         return result
 
     wrapper.__wrapped_by_verif__ = True
